@@ -289,6 +289,7 @@ func verifyFuncBeh(prog *Program, key string, beh *Behavior) (res *FuncResult) {
 	// parameters as fresh constants
 	sc := &specCtx{ex: ex, st: ex.st, vars: map[string]Val{}, stateVars: map[string]stateVar{}, pkg: pkg.Types, where: fc.Line}
 	ex.paramVals = map[string]Val{}
+	ex.paramObjs = map[*types.Var]Val{}
 	var recv *Val
 	mkParam := func(v *types.Var) Val {
 		name := v.Name()
@@ -297,13 +298,14 @@ func verifyFuncBeh(prog *Program, key string, beh *Behavior) (res *FuncResult) {
 		}
 		c := ex.fresh("p."+sanitize(name), sortOf(v.Type()))
 		ex.rawFact(ex.typeFact(v.Type(), c))
-		if isPointer(v.Type()) || isInterface(v.Type()) {
-			ex.rawFact(Lt(c, ex.allocInit()))
+		if f := ex.refBounds(v.Type(), c, ex.allocInit(), 0); f != True {
+			ex.rawFact(f)
 		}
 		val := Val{c, v.Type()}
 		if v.Name() != "" && v.Name() != "_" {
 			sc.vars[v.Name()] = val
 			ex.paramVals[v.Name()] = val
+			ex.paramObjs[v] = val
 		}
 		ex.inputs = append(ex.inputs, val)
 		ex.inputNames = append(ex.inputNames, name)
@@ -405,6 +407,25 @@ func verifyFuncBeh(prog *Program, key string, beh *Behavior) (res *FuncResult) {
 	outs := ex.inlineBody(fn.FullName(), sig, decl.Type, decl.Body, decl.Recv, recv, args, pkg, fc, true)
 	if !ex.exitsChecked {
 		checkEnsures(outs, "")
+	}
+	if fc.IterBody && !ex.st.dead && len(outs) == 1 {
+		// the returned function literal is executed once, right away, with contracted function parameters
+		// (captured variables keep the values they had when the literal was created)
+		if c, ok := ex.closures[outs[0].T.String()]; ok {
+			lsig := pkg.TypesInfo.TypeOf(c.lit).(*types.Signature)
+			var largs []Val
+			for i := 0; i < lsig.Params().Len(); i++ {
+				p := lsig.Params().At(i)
+				v := ex.fresh("ip."+p.Name(), sortOf(p.Type()))
+				ex.assume(And(ex.typeFact(p.Type(), v), Lt(I(0), v)))
+				largs = append(largs, Val{v, p.Type()})
+			}
+			ex.code = append(ex.code, &codeCtx{name: "iterbody", pkg: pkg, fc: fc, loopIdx: loopIndex(decl.Body)})
+			ex.inlineBody("iterbody@"+ex.posString(c.lit.Pos()), lsig, c.lit.Type, c.lit.Body, nil, nil, largs, pkg, fc, false)
+			ex.code = ex.code[:len(ex.code)-1]
+		} else {
+			res.Errors = append(res.Errors, key+": iterbody: the function does not return a function literal")
+		}
 	}
 	res.Obls = ex.obls
 	for _, o := range res.Obls {
@@ -603,7 +624,7 @@ func (ex *Exec) frameFormula(st *State, keys []string) *T {
 	allocOld := ex.get(ex.oldState, "$alloc")
 	var gs []*T
 	for _, k := range keys {
-		if !(strings.HasPrefix(k, "$H.") || strings.HasPrefix(k, "$G.") || strings.HasPrefix(k, "$P.")) {
+		if !(strings.HasPrefix(k, "$H.") || strings.HasPrefix(k, "$G.") || strings.HasPrefix(k, "$P.") || strings.HasPrefix(k, "$M.")) {
 			continue
 		}
 		cur := ex.get(st, k)
